@@ -5,6 +5,7 @@ package main
 
 import (
 	"context"
+	"errors"
 	"fmt"
 	"sort"
 	"strconv"
@@ -33,17 +34,18 @@ func upTok(i *message.UpstreamInfo) int { return upTokOfStream(i.StreamID) }
 func upTokOfStream(id uuid.UUID) int { return int(id[0])<<8 | int(id[1]) }
 
 type impl struct {
-	b      *broker.Broker
-	conn   *iscp.Conn
-	down   *iscp.Downstream
-	logPos int
-	alias  uint32
+	b       *broker.Broker
+	conn    *iscp.Conn
+	down    *iscp.Downstream
+	logPos  int
+	alias   uint32
+	starved bool // a read timed out in this case
 	// oracle bookkeeping
-	sent      []string       // chunks sent by the broker, in order: "seq/up"
+	sent      []string            // chunks sent by the broker, in order: "seq/up"
 	sentOps   map[string][]string // sequence number -> [upstream word, groups word] of the chunk ops carrying it
-	returned  []string       // chunks returned by ReadDataPoints
-	acked     map[string]int // "up:seq" -> times acknowledged
-	upAlias   map[int]int    // upstream token -> alias announced
+	returned  []string            // chunks returned by ReadDataPoints
+	acked     map[string]int      // "up:seq" -> times acknowledged
+	upAlias   map[int]int         // upstream token -> alias announced
 	idAlias   map[int]int
 	aliasUsed map[string]string
 	lastAckID uint32
@@ -76,7 +78,11 @@ func (i *impl) open(qos, pre string) string {
 			ids = append(ids, dp.ID(n))
 		}
 	}
-	ctx, cancel := context.WithTimeout(context.Background(), watchdog)
+	wdog := watchdog
+	if i.starved {
+		wdog = 100 * time.Millisecond // a read has already starved in this case: the rest of it is not comparable, do not wait for it
+	}
+	ctx, cancel := context.WithTimeout(context.Background(), wdog)
 	defer cancel()
 	filters := []*message.DownstreamFilter{{SourceNodeID: "n0", DataFilters: []*message.DataFilter{{Name: "#", Type: "#"}}}, {SourceNodeID: "n1", DataFilters: []*message.DataFilter{{Name: "#", Type: "#"}}}}
 	d, err := conn.OpenDownstream(ctx, filters, iscp.WithDownstreamQoS(q), iscp.WithDownstreamDataIDs(ids), iscp.WithDownstreamAckFlushInterval(2*time.Millisecond),
@@ -247,15 +253,36 @@ func (i *impl) exec(h *lp.H, op string) string {
 		}
 		i.sentOps[w[2]] = append(i.sentOps[w[2]], w[1], w[3])
 		return "ok"
-	case "readn":
+	case "readn", "readnp":
 		k, _ := strconv.Atoi(w[1])
 		var outs []string
 		okReads := 0
 		anyFull := false
 		for j := 0; j < k; j++ {
-			c, err := i.down.ReadDataPoints(ctx)
+			var c *iscp.DownstreamChunk
+			var err error
+			polled := false
+			if w[0] == "readnp" {
+				// a consumer that polls: reads whose context has already ended come first. Such a read returns a chunk or the
+				// context's error - it never takes a chunk and drops it
+				for pp := 0; pp < 3 && !polled; pp++ {
+					dead, cancelDead := context.WithDeadline(context.Background(), time.Now().Add(-time.Second))
+					pc, perr := i.down.ReadDataPoints(dead)
+					cancelDead()
+					switch {
+					case perr == nil:
+						c, polled = pc, true
+					case !errors.Is(perr, context.DeadlineExceeded) && !errors.Is(perr, context.Canceled):
+						err, polled = perr, true // the chunk was taken and refused (e.g. an alias nobody announced): that is this read's result
+					}
+				}
+			}
+			if !polled {
+				c, err = i.down.ReadDataPoints(ctx)
+			}
 			if err != nil {
 				if err == context.DeadlineExceeded {
+					i.starved = true
 					outs = append(outs, "empty")
 				} else {
 					outs = append(outs, "err")
@@ -284,6 +311,15 @@ func (i *impl) exec(h *lp.H, op string) string {
 							// alias form: the reader must see exactly the data id the client itself announced (or pre-registered) under
 							// that alias - judged from the announcements the broker received, not from the model
 							al, _ := strconv.Atoi(g[1:strings.Index(g, ":")])
+							announced := false
+							for _, a := range i.idAlias {
+								if a == al {
+									announced = true
+								}
+							}
+							if !announced {
+								h.Violate(fmt.Sprintf("chunk %d group %d was sent under data id alias %d, which the client never announced or pre-registered: the read must fail, it returned the chunk (group delivered under data id %q)", c.SequenceNumber, gi, al, c.DataPointGroups[gi].DataID.Name))
+							}
 							for tok, a := range i.idAlias {
 								if a == al {
 									if got := dp.Tok(c.DataPointGroups[gi].DataID); got != tok {
@@ -730,7 +766,7 @@ func main() {
 				sig += "c"
 			case k < 8 && pending > 0: // the consumer reads some of what arrived
 				n := 1 + rng.Intn(pending)
-				out := do(fmt.Sprintf("readn %d", n))
+				out := do(fmt.Sprintf("%s %d", []string{"readn", "readnp"}[rng.Intn(2)], n))
 				// learn which aliases the client has announced by now (generation only)
 				for j := 0; j < n; j++ {
 					pi := pendingInfo[j]
